@@ -89,7 +89,8 @@ def register_spec_fun(name, args, res, smtname):
 class SpecEval:
     """Compile a contract expression to an SMT term over an environment of symbolic values."""
 
-    def __init__(self, engine, env, old_env=None, glob=None):
+    def __init__(self, engine, env, old_env=None, glob=None, old_state=None):
+        self.old_state = old_state
         self.e = engine
         self.env = env
         self.old_env = old_env
@@ -263,7 +264,7 @@ class SpecEval:
                 hi = asI(self.ev(n.args[1]))
                 lo = asI(self.ev(n.args[2])) if len(n.args) > 2 else "0"
                 q = fresh_name("q" + var)
-                sub = SpecEval(self.e, {**self.env, var: mkI(q)}, self.old_env, self.glob)
+                sub = SpecEval(self.e, {**self.env, var: mkI(q)}, self.old_env, self.glob, self.old_state)
                 body = asB(sub.ev(lam.body))
                 rng = f"(and (<= {lo} {q}) (< {q} {hi}))"
                 if f == "forall":
@@ -272,7 +273,7 @@ class SpecEval:
             if f == "old":
                 sub = SpecEval(self.e, self.old_env or self.env, None, self.glob)
                 saved = self.e.spec_state
-                self.e.spec_state = None
+                self.e.spec_state = self.old_state
                 try:
                     return sub.ev(n.args[0])
                 finally:
@@ -305,9 +306,20 @@ class SpecEval:
                     return mkI(f"(str.len {v.t})")
                 return mkI(f"(py_len {asV(v)})")
             if f == "isinstance":
+                raw = self.ev_raw(n.args[0])
+                if isinstance(raw, SymObj):
+                    cn = n.args[1]
+                    classes = [cn] if not isinstance(cn, ast.Tuple) else cn.elts
+                    objs = [self.e.spec_names.get(x.id) or getattr(__import__("builtins"), x.id, None) for x in classes if isinstance(x, ast.Name)]
+                    if len(objs) == len(classes) and all(isinstance(o, type) for o in objs):
+                        return mkB(TRUE if issubclass(raw.cls, tuple(objs)) else FALSE)
                 v = self.ev(n.args[0])
                 c = self.ev(n.args[1])
                 return mkB(f"(py_isinstance {asV(v)} {asV(c)})")
+            if f == "is_obj":
+                raw = self.ev_raw(n.args[0])
+                if isinstance(raw, SymObj):
+                    return mkB(TRUE)
             if f == "has":
                 d = self.ev(n.args[0])
                 k = self.ev(n.args[1])
@@ -336,6 +348,12 @@ class SpecEval:
                 a = f"(ite (truthy {asV(ex)}) (seqof {asV(ex)}) (as seq.empty (Seq V)))"
                 b = f"(ite (truthy {asV(pr)}) (seqof {asV(prq)}) (as seq.empty (Seq V)))"
                 return Val(f"(v_list (seq.++ {a} {b}))", kind="list")
+            if f == "item_schema":
+                it = self.ev(n.args[0])
+                j = asI(self.ev(n.args[1]))
+                items = asV(self.e.lift(self.e.spec_getattr(it, "items")))
+                addl = asV(self.e.lift(self.e.spec_getattr(it, "additional")))
+                return Val(f"(ite (k_list {items}) (ite (< {j} (seq.len (lval {items}))) (seq.nth (lval {items}) {j}) {addl}) {items})")
             if f == "key_at":
                 d = self.ev(n.args[0])
                 j = self.ev(n.args[1])
@@ -345,7 +363,7 @@ class SpecEval:
                 j = self.ev(n.args[1])
                 return Val(f"(pval (seq.nth (ditems {asV(d)}) {asI(j)}))")
             if f == "attr_absent":
-                base = self.ev(n.args[0])
+                base = self.ev_raw(n.args[0])
                 name = n.args[1].value
                 return mkB(Eq(asV(self.e.lift(self.e.spec_getattr(base, name))), "v_absent"))
             if f in SPEC_FUNS:
